@@ -127,5 +127,5 @@ def harnesses(tier, seed):
     hs = all_harnesses() + extra_harnesses()
     for h in hs:
         # the only instances of these hand-written blocks: take them before the many sync-macro ones
-        h.priority = h.core and h.shape.get("block") in ("fir", "audecode-data", "resamp", "delay")
-    return select(hs, tier, seed, 6, budget=4200, max_one=260)
+        h.priority = h.core and h.shape.get("block") in ("fir", "audecode-data")
+    return select(hs, tier, seed, 4, budget=2600)
